@@ -939,7 +939,7 @@ Lemma fit_nonvacuous :
   qnorm2 RA ex_p = 1 /\ noncollinear ex_defs /\
   (exists q, eigen_contract (snd (center RA ex_defs))
                (snd (center RA (map (rigid (q2mat RA ex_p) ex_T) ex_defs))) q) /\
-  rigid (q2mat RA ex_p) ex_T (1, 2, 3) = (13, -19, 32) /\
+  rigid (q2mat RA ex_p) ex_T (1, 2, 3) = (12, -17, 31) /\
   (let c := 3 / 5 in let s := 4 / 5 in let init : Rpt := (0, 0, 2) in
    c * c + s * s = 1 /\ dot3 RA init init <> 0 /\
    qchichange RA c s init ((1, 0, 5) :: nil) = ((3 / 5, 4 / 5, 5) :: nil)).
